@@ -116,6 +116,7 @@ func runC05(w *fw.W) {
 			w.Note(lines)
 			return ip.Run(stmt, interp.Options{Env: env, Fuel: 200000})
 		}
+		qtag := ""
 		expect := func(qkind, class, expr, want string, wantErr string) {
 			o := run(expr)
 			counters["queries"]++
@@ -130,7 +131,7 @@ func runC05(w *fw.W) {
 			case wantErr == "" && (!o.OK() || o.Inspect != want):
 				vs.add(key, fmt.Sprintf("%s → %s, the forest model says %s\nhistory:\n%s", expr, o.Outcome(), want, hist), lines)
 			default:
-				dk[qkind+"|"+class] = struct{}{}
+				dk[qkind+"|"+class+qtag] = struct{}{}
 			}
 		}
 		newProps := func(id int, withUID bool) (map[string]c5prop, string) {
@@ -220,6 +221,10 @@ func runC05(w *fw.W) {
 						}
 					}
 				}
+			}
+			qtag = fmt.Sprintf("|absent|chain%d", len(f.chain(i)))
+			if found {
+				qtag = fmt.Sprintf("|%s|depth%d|chain%d", p.kind, depth, len(f.chain(i)))
 			}
 			mOwner, mp, mFound := f.find(i, "_missing")
 			_ = mOwner
